@@ -361,6 +361,11 @@ def handle (line : String) : String :=
             | .ok (v, st') => go k st'.next (acc ++ " | ok " ++ valToStr v)
         go count (IOReaderSt.new stream fa scratch) "rio"
       | _, _, _, _ => "bad-op"
+    | "realrt", [.atom _idx, c, .atom _h] =>
+      -- a concrete Rust value decoded by the REAL Deserialize impl and re-encoded: must be enc of its call tree
+      match ctOfSexp c with
+      | some c => "ok " ++ hexOfBytes (enc c.erase)
+      | none => "bad-op"
     | "conf", [c, sx, .atom h] =>
       -- C14 on REAL data: the recorded call tree of a real value, the real T::SCHEMA, the real bytes
       match ctOfSexp c, schemaOfSexp sx, bytesOfHex h with
